@@ -1422,5 +1422,100 @@ class _Engine:
     def components():
         return seams.report()
 
+    @staticmethod
+    def extra_coverage(prop, seed, tier, total):
+        _ = total
+        if prop != "C06":
+            return {}
+        if tier != "thorough":
+            return {"cross_process_restarts": "thorough tier only"}
+        return cross_process_restarts(seed, tier, n_worlds=24, hashseeds=(3, 99991))
+
+
+def cross_process_restarts(seed, tier, n_worlds, hashseeds):
+    """Thorough tier: the JSON string written by this process is loaded and transformed in fresh
+    interpreters under other PYTHONHASHSEED values (fault kind restart_cross_process)."""
+    import os  # pylint: disable=C0415
+    import shutil  # pylint: disable=C0415
+    import subprocess  # pylint: disable=C0415
+    import sys  # pylint: disable=C0415
+    import tempfile  # pylint: disable=C0415
+
+    from .realcheck import reference_digest  # pylint: disable=C0415
+
+    here = os.path.dirname(os.path.dirname(os.path.abspath(__file__)))
+    scratch = tempfile.mkdtemp(prefix="acsim_xproc_")
+    checked, mismatches, skipped = 0, [], 0
+    try:
+        idx = 0
+        while checked < n_worlds and idx < 600:
+            spec = generate("C06", seed, idx, tier)
+            idx += 1
+            with seams.scheduling(seams.Scheduler(mode="identity")):
+                ref = reference_digest(spec["world"], 1, install_seams=True)
+            if not isinstance(ref, tuple):
+                skipped += 1
+                continue
+            ref_digest, text = ref
+            path = os.path.join(scratch, f"spec{idx}.json")
+            with open(path, "w", encoding="utf-8") as fobj:
+                json.dump({"world": spec["world"], "saved_json": text}, fobj)
+            for hs in hashseeds:
+                env = dict(os.environ, PYTHONHASHSEED=str(hs), VERIF_NO_REEXEC="1")
+                proc = subprocess.run(
+                    [sys.executable, "-m", "acsim.realcheck", path, "load"],
+                    capture_output=True, text=True, env=env, cwd=here, timeout=600, check=False,
+                )
+                got = None
+                for line in reversed(proc.stdout.splitlines()):
+                    if line.startswith("{"):
+                        got = json.loads(line)
+                        break
+                # the in-process reference digest includes the fitted orders; recompute its output part
+                problem = None
+                if got is None:
+                    problem = f"no report: {proc.stderr[-300:]}"
+                else:
+                    diff = json_diff(parsed_json(text), parsed_json(got["json_again"]))
+                    if diff:
+                        problem = f"JSON again differs at {diff}"
+                    elif got["digest"] != _load_digest_in_process(spec["world"], text):
+                        problem = "transform output differs from the in-process reload"
+                if problem:
+                    mismatches.append({"run": idx - 1, "hashseed": hs, "problem": problem})
+            checked += 1
+            _ = ref_digest
+    finally:
+        shutil.rmtree(scratch, ignore_errors=True)
+    out = {
+        "cross_process_restarts": {
+            "label": "real process boundary: JSON saved here, loaded and transformed in fresh interpreters under other PYTHONHASHSEED values",
+            "worlds": checked,
+            "hashseeds": list(hashseeds),
+            "executions": checked * len(hashseeds),
+            "skipped_worlds_rejected_at_fit": skipped,
+            "mismatches": mismatches,
+        }
+    }
+    if mismatches:
+        out["_mismatch"] = True
+    return out
+
+
+def _load_digest_in_process(world, text):
+    from AutoCarver import load_carver  # pylint: disable=C0415
+    from AutoCarver.discretizers import load_discretizer  # pylint: disable=C0415
+
+    loader = load_carver if worlds.is_carver(world) else load_discretizer
+    obj = loader(json.loads(text))
+    X, _ = worlds.build_frame(world, "train")
+    feats = sorted(str(f) for f in obj.features)
+    try:
+        cf = canon_frame(obj.transform(X.copy(deep=True)))
+        outs = {f: cf["values"].get(f) for f in feats}
+    except Exception as err:  # pylint: disable=W0718
+        outs = ["transform-error", type(err).__name__]
+    return digest([feats, outs])
+
 
 ENGINE = _Engine()
